@@ -65,6 +65,8 @@ pub struct Names {
     pub codes: Vec<u64>,
     pub denoms: Vec<String>,
     pub root_keys: Vec<Vec<u8>>,
+    /// address of the next plain instantiation, as predicted before the current step
+    pub next_addr: Option<String>,
 }
 
 impl Names {
@@ -84,6 +86,7 @@ impl Names {
             Target::Ghost(n) => self.ghost(*n),
             Target::Invalid => INVALID_ADDR.to_string(),
             Target::SelfAddr => self_addr.to_string(),
+            Target::Next => self.next_addr.clone().unwrap_or_else(|| self.ghost(3000)),
         }
     }
 
